@@ -1,6 +1,7 @@
 SPECIFICATION TSpec
 CONSTANTS
   Fused = FALSE
+  SoftReest = FALSE
   MaxAdds = 1000000
   MaxHeight = 1000000
   MaxDisc = 1000000
